@@ -435,7 +435,7 @@ def _replay_select(payload):
             return _t.run_monitor('Mon_Select', [r], cfg='Mon_Select.cfg', shards=1)['verdicts'][0][2]
         limits = ([payload['limit']] if payload.get('limit') else []) + [2.0, 0.0005, 'sched:all', 'sched:nonlazy', 'sched:lazy']
         traces = []
-        eagers = [payload.get('eager_max')] * len(limits)
+        eagers = [payload.get('eager_max') or None] * len(limits)
         limits.append('sched:lazy')
         eagers.append(2)
         for i, limit in enumerate(limits):
